@@ -824,6 +824,7 @@ func c09Sub(c *Ctx, p *Prog) {
 		c.Undecided("C09-R9", "encodeRune", "-", "not found")
 		return
 	}
+	fn = transformHost(p, fn) // encodeRune, or the helper it transcodes one rune with
 	n := 0
 	eachInstr(fn, func(in ssa.Instruction) {
 		cc := callCommon(in)
@@ -849,6 +850,12 @@ func c09Sub(c *Ctx, p *Prog) {
 					if b, ok := call.Call.Value.(*ssa.Builtin); ok && b.Name() == "append" {
 						isAppendArg = true
 					}
+				}
+			}
+			// … or handed out by the helper that holds the encoder call (`return out[:n], true`)
+			for _, r := range referrers(sl) {
+				if _, isRet := r.(*ssa.Return); isRet {
+					isAppendArg = true
 				}
 			}
 			if !isAppendArg {
